@@ -22,5 +22,6 @@ func c19(c *Ctx) {
 		"callbacks do not retain or mutate the packets they are shown (C16 covers the library side)"}
 	demuxrules.New(c.P, r).C19()
 	extrarules.SkipperAlwaysInstalled(c.P, r)
+	extrarules.SkipperSeesEveryPacket(c.P, r)
 	r.Floor("C19", "obligations", len(r.Obls), 15)
 }
